@@ -14,7 +14,7 @@ From Coq Require Import ZArith List Bool Lia Sorting.Sorted.
 From Low Require Import Lib.MachInt Lib.Bits Lib.BitSeq Lib.Lex Lib.Bytes Spec.Bmtree Spec.IndexSpec Spec.ContractSpec
   Spec.FromStr32Spec Model.BmtreePath Model.BmtreeIndex Model.FromStr32
   Proofs.BmtreeRankSpec Proofs.ShiftMultiProofs Proofs.BmtreeIndexProofs Proofs.BmtreeContractProofs
-  Proofs.BmtreeDomainProofs Proofs.BmtreeSubtreeProofs Proofs.BmtreeKeyIndexProofs.
+  Proofs.BmtreeDomainProofs Proofs.BmtreeSubtreeProofs Proofs.BmtreeKeyIndexProofs Proofs.BmtreeSessionProofs.
 Import ListNotations.
 Open Scope Z_scope.
 
@@ -254,6 +254,25 @@ Theorem C03_key_checker : forall T s from (dbg : bool), 1 <= T < 2 ^ 31 -> bytes
 Proof. exact key_checker. Qed.
 Print Assumptions C03_key_checker.
 
+(** * sessions: any sequence of lookups on one level mask (PathToIndexLoose on any node, PathToIndex on
+    nodes of a stored level), in either build, returns per step that step's own rank — nothing depends
+    on what was asked before.  (Of the model this is the per-step theorem mapped over the sequence; the
+    session operation of the correspondence run checks it of the implementation.) *)
+Theorem C03_session : forall (dbg : bool) T h (steps : list look), 1 <= T < 2 ^ 31 -> Height T = Z.of_nat h ->
+  Forall (look_ok T h) steps ->
+  map (look_run dbg T h) steps = map (fun s => Some (look_spec T h s)) steps.
+Proof. exact session_spec. Qed.
+Print Assumptions C03_session.
+
+(** two consecutive steps may legitimately return the SAME index: a node of an absent level and its
+    left-most descendant on the next stored level (no stored level in between) *)
+Theorem C03_absent_then_first_descendant : forall T h q (k : nat), 1 <= T < 2 ^ 31 -> Height T = Z.of_nat h ->
+  (length q + k <= h)%nat ->
+  (forall j, (j < k)%nat -> Z.testbit T (Z.of_nat (length q + j)) = false) ->
+  pre_rank T h (q ++ repeat false k) = pre_rank T h q.
+Proof. exact absent_then_first_descendant. Qed.
+Print Assumptions C03_absent_then_first_descendant.
+
 (** * widening: the contracts of the debug build on RAW arguments (any int32 level mask, any uint64 word) *)
 
 (** the naive decoder of Spec/ContractSpec.v recognises exactly the path words *)
@@ -381,3 +400,14 @@ Example C03_key_nonvacuous :
   key_node [0xa5; 0x80] 12 6 = [false; false; false; false] /\
   PathOf [0xa5; 0x80] 12 6 = Some (enc 6 [false; false; false; false]).
 Proof. repeat apply conj; vm_compute; reflexivity. Qed.
+
+(** a session on T = 0b101: Loose of the absent-level node 0, then PathToIndex of its first stored descendant 00 *)
+Example C03_session_nonvacuous :
+  Forall (look_ok 5 2) [(false, [false]); (true, [false; false]); (true, []); (false, [true])] /\
+  map (look_run true 5 2) [(false, [false]); (true, [false; false]); (true, []); (false, [true])] =
+    [Some (inl (1, 0)); Some (inr 1); Some (inr 0); Some (inl (3, 0))] /\
+  pre_rank 5 2 ([false] ++ repeat false 1) = pre_rank 5 2 [false].
+Proof.
+  split; [|split; vm_compute; reflexivity].
+  repeat constructor; cbn [fst snd length]; try lia; try (intros _; vm_compute; reflexivity); try discriminate.
+Qed.
